@@ -721,6 +721,11 @@ def numnorm(t):
         return ("cast", t[1], inner, t[3])
     if k == "call" and t[1] in LEN_CALLS:
         return ("len", numnorm(t[2][0]))
+    if k == "call" and len(t[2]) == 1 and (t[1].startswith("std::convert::num::<impl std::convert::From<u") or t[1].startswith("core::convert::num::<impl std::convert::From<u") or t[1] == "<T as std::convert::Into<U>>::into"):
+        # lossless widening of a constant: u32::from(10_u8)
+        inner = numnorm(t[2][0])
+        if inner[0] == "int" and " for " in t[1]:
+            return ("int", inner[1], t[1].split(" for ")[-1].split(">")[0])
     if k == "binop":
         return ("binop", t[1], numnorm(t[2]), numnorm(t[3]))
     if k == "unop":
